@@ -25,7 +25,8 @@ ALPHA = "abcdefghijklmnopqrstuvwxyzABCDEFGHIJKLMNOPQRSTUVWXYZ0123456789 @:%+=!$&
 def floors(tier):
     k = 1 if tier == "quick" else 8
     return {"patterns": 200 * k, "helper_pairs_present": 200 * k, "roundtrips": 6000 * k, "nonmatch_probes": 4000 * k, "common_roundtrips": 200 * k,
-            "form:sep": 30 * k, "form:dstar": 10 * k, "form:singleton": 10 * k, "form:wildcard": 5 * k}
+            "form:sep": 30 * k, "form:dstar": 10 * k, "form:singleton": 10 * k, "form:wildcard": 5 * k,
+            "held_below_request_or_reply": 60 * k, "held_two_or_more_hops_down": 30 * k}
 
 
 def plan(seed, tier):
@@ -121,7 +122,8 @@ def run_case(case):
     items = []
     for r in api.info["resources"]:
         helper = rdm.snake(r["short"])
-        items.append({"helper": helper, "pattern": r["pattern"], "vars": r["vars"], "form": r["form"], "how": r["how"], "common": False})
+        items.append({"helper": helper, "pattern": r["pattern"], "vars": r["vars"], "form": r["form"], "how": r["how"], "common": False,
+                      "held_by": r.get("held_by")})
     for k, (pat, vs) in COMMON.items():
         items.append({"helper": "common_" + k, "pattern": pat, "vars": vs, "form": "common", "how": "common", "common": True})
     for it in items:
@@ -151,6 +153,11 @@ def run_case(case):
     for it, r in zip(items, ev["items"]):
         bump("patterns")
         bump("form:" + it["form"])
+        hb = it.get("held_by") or "Req"
+        if hb != "Req":
+            bump("held_below_request_or_reply")
+            if hb in ("ReqLevel2", "ReqLevel3", "ReplyLevel2"):
+                bump("held_two_or_more_hops_down")
         meta = set(re.findall(r"[.^$*+?()\[\]{}|\\]", VAR.sub("", it["pattern"]))) if it["pattern"] != "*" else set()
         mech = {"form": it["form"], "separators": sorted(delimiters(it["pattern"]) - {"/"}), "literal_has_regex_metachar": bool(meta)}
 
@@ -196,7 +203,7 @@ def run_case(case):
             if sample is None and it["form"] == "sep" and o.get("trials"):
                 sample = {"helper": it["helper"], "pattern": it["pattern"], "values": it["trials"][0]["values"],
                           "built": o["trials"][0].get("built"), "nonmatching_probes": it["trials"][0]["non"][:3]}
-    return {"verdict": "violated" if viol else "held", "violations": viol[:20],
+    return {"verdict": "violated" if viol else "held", "violations": pipeline.diverse(viol, 40),
             "evaluations": counters.get("roundtrips", 0) + counters.get("common_roundtrips", 0) + counters.get("nonmatch_probes", 0),
             "nontrivial_sigs": sorted(sigs), "counters": counters, "sample": sample or {}}
 
